@@ -30,6 +30,11 @@ import (
 )
 
 func (s *rpcServer) processRPC(ctx context.Context, rpcReq *rpcbackend.RPCRequest) (*rpcbackend.RPCResponse, error) {
+	if rpcReq == nil {
+		// such as a null entry in a batch
+		err := i18n.NewError(ctx, signermsgs.MsgInvalidRequest)
+		return rpcbackend.RPCErrorResponse(err, fftypes.JSONAnyPtr("1"), rpcbackend.RPCCodeInvalidRequest), err
+	}
 	if rpcReq.ID == nil {
 		err := i18n.NewError(ctx, signermsgs.MsgMissingRequestID)
 		return rpcbackend.RPCErrorResponse(err, rpcReq.ID, rpcbackend.RPCCodeInvalidRequest), err
@@ -84,7 +89,8 @@ func (s *rpcServer) processEthSendTransaction(ctx context.Context, rpcReq *rpcba
 		var from ethtypes.Address0xHex
 		err := json.Unmarshal(txn.From, &from)
 		if err != nil {
-			return nil, err
+			err := i18n.WrapError(ctx, err, signermsgs.MsgInvalidTransaction)
+			return rpcbackend.RPCErrorResponse(err, rpcReq.ID, rpcbackend.RPCCodeInvalidRequest), err
 		}
 		rpcErr := s.backend.CallRPC(ctx, &txn.Nonce, "eth_getTransactionCount", &from, "pending")
 		if rpcErr != nil {
